@@ -2,3 +2,4 @@
 //! vocabulary and mila's public API, and observation of mila objects through that API.
 
 pub mod glue;
+pub mod lzfam;
